@@ -134,6 +134,9 @@ static int h_main(int argc, char **argv)
                 alarm((unsigned)h_watchdog);
                 run_case(lines + i, (int)(j - i));
                 fflush(stdout);
+#ifdef H_COVERAGE
+                { extern void __gcov_dump(void); __gcov_dump(); }
+#endif
                 _exit(0);
             }
             close(relay[1]);
